@@ -12,7 +12,9 @@
 (***************************************************************************)
 EXTENDS OneshotObs, Json
 
-CONSTANTS MaxV, MaxH, CountReceivers
+CONSTANTS MaxV, MaxH, CountReceivers,
+          SplitDrop   \* TRUE (broadcast): the drop of the last receiver handle is two separately scheduled
+                      \* steps, as in the code: fetch_sub (DecReceiver), then close() (LateClose); model-level only
 
 VARIABLES ful, value, st, fin, task, q, senders, receivers, dead, evt
 
@@ -26,7 +28,7 @@ View == [ful |-> ful, hasval |-> value # 0, st |-> st, task |-> task, q |-> q,
          oClosedEv |-> oClosedEv, oSenders |-> oSenders, oReceivers |-> oReceivers, bad |-> bad]
 
 Consts == [K |-> K, Wk |-> SetToSortedSeq({IF w = "A" THEN 1 ELSE 2 : w \in Wk}), Broadcast |-> Broadcast,
-           Shared |-> Shared, MaxV |-> MaxV, MaxH |-> MaxH]
+           Shared |-> Shared, MaxV |-> MaxV, MaxH |-> MaxH, SplitDrop |-> SplitDrop]
 
 Init == /\ ful = FALSE /\ value = 0
         /\ st = [f \in Slots |-> "none"] /\ fin = [f \in Slots |-> FALSE]
@@ -119,7 +121,7 @@ CloneReceiver ==
   /\ Emit([op |-> "clone_receiver"])
 
 DropReceiver ==
-  /\ Shared /\ receivers > 0
+  /\ Shared /\ ~SplitDrop /\ receivers > 0
   /\ receivers' = receivers - 1 /\ UNCHANGED senders
   /\ IF (receivers = 1 \/ ~CountReceivers) /\ ~ful
      THEN LET x == WakeAll IN
@@ -128,6 +130,24 @@ DropReceiver ==
           /\ Emit([op |-> "drop_receiver", wakes |-> x.wakes])
      ELSE /\ UNCHANGED <<ful, value, st, fin, task, q, dead>>
           /\ Emit([op |-> "drop_receiver", wakes |-> <<>>])
+
+(* GenericOneshotBroadcastReceiver::drop as the code performs it: fetch_sub; if it was the last
+   handle: close().  A pending close() is encoded as receivers = -1.                             *)
+DecReceiver ==
+  /\ Shared /\ Broadcast /\ SplitDrop /\ receivers > 0
+  /\ receivers' = IF receivers = 1 THEN 0 - 1 ELSE receivers - 1
+  /\ UNCHANGED <<ful, value, st, fin, task, q, senders, dead>>
+  /\ Emit([op |-> "dec_receiver"])
+LateClose ==
+  /\ Shared /\ SplitDrop /\ receivers = 0 - 1
+  /\ receivers' = 0 /\ UNCHANGED senders
+  /\ IF ful
+     THEN /\ UNCHANGED <<ful, value, st, task, q, fin, dead>>
+          /\ Emit([op |-> "late_close", wakes |-> <<>>])
+     ELSE LET x == WakeAll IN
+          /\ ful' = TRUE /\ st' = x.st /\ task' = x.task /\ q' = <<>>
+          /\ UNCHANGED <<value, fin, dead>>
+          /\ Emit([op |-> "late_close", wakes |-> x.wakes])
 
 Destroy ==
   /\ \A r \in Slots : st[r] = "none"
@@ -141,6 +161,7 @@ Next == /\ ~dead
            \/ Close
            \/ \E r \in Slots : Create(r) \/ Drop(r) \/ PollDone(r) \/ \E w \in Wk : Poll(r, w)
            \/ DropSender \/ CloneReceiver \/ DropReceiver \/ Destroy
+           \/ DecReceiver \/ LateClose
 
 Spec == Init /\ [][Next]_vars
 
@@ -151,7 +172,8 @@ QueueOK == /\ NoDup(q)
            /\ \A f \in Slots : st[f] = "reg" => task[f] # "-"
            /\ ful => q = <<>>
            /\ value # 0 => ful
-Refines == /\ ful = oFul /\ senders = oSenders /\ receivers = oReceivers
+Refines == /\ ful = oFul /\ senders = oSenders
+           /\ (IF receivers < 0 THEN 0 ELSE receivers) = oReceivers
            /\ (dead \/ ((value # 0) = (oVal # 0 /\ (Broadcast \/ ~oTaken))))
            /\ \A f \in Slots : /\ (oA[f] = "none") = (st[f] = "none")
                                /\ (oA[f] = "done") = fin[f]
